@@ -37,6 +37,9 @@ type w1Op struct {
 	N       int    `json:"n,omitempty"`       // generic number (limit, count)
 	Rev     bool   `json:"rev,omitempty"`     // history reverse
 	Since   int    `json:"since,omitempty"`   // history since offset (-1 none)
+	Back    int    `json:"back,omitempty"`    // subrec: requested offset = top - Back (negative: beyond the top)
+	Ep      string `json:"ep,omitempty"`      // subrec: cur | foreign | empty
+	Reject  bool   `json:"reject,omitempty"`  // subrec: demand error 112 when not recoverable
 }
 
 type w1Client struct {
@@ -71,6 +74,7 @@ type w1Cfg struct {
 	DelayPm         int  `json:"pubsub_delay_pm"`
 	ExpiredDelayMs  int  `json:"expired_close_delay_ms"`
 	ChannelMaxLen   int  `json:"channel_max_length"`
+	MetaTTLSec      int  `json:"history_meta_ttl_s"`
 	HistoryMax      int  `json:"history_max_publication_limit"`
 	RecoveryMax     int  `json:"recovery_max_publication_limit"`
 	SubFailPm       int  `json:"broker_subscribe_fail_pm"`
@@ -510,6 +514,30 @@ func (cl *w1SimClient) runOp(op w1Op) bool {
 			}
 		}
 		return cl.send(&protocol.Command{Id: cl.id(), Subscribe: req}, "subscribe", op.Ch)
+	case "subrec":
+		// recovery from an explicit position, evaluated at quiescence (C02/C03)
+		top, _ := cl.w.node.History(op.Ch)
+		off := int64(top.Offset) - int64(op.Back)
+		if off < 0 {
+			off = 0
+		}
+		epoch := top.Epoch
+		switch op.Ep {
+		case "foreign":
+			epoch = "zzzz"
+		case "empty":
+			epoch = ""
+		}
+		req := &protocol.SubscribeRequest{Channel: op.Ch, Token: "0:false", Recover: true, Offset: uint64(off), Epoch: epoch}
+		if op.Reject {
+			req.Flag |= subscriptionFlagRejectUnrecovered
+		}
+		id := cl.id()
+		ok := cl.send(&protocol.Command{Id: id, Subscribe: req}, "subscribe", op.Ch)
+		if ok {
+			cl.w.checkRecoverReply(cl, id, req)
+		}
+		return ok
 	case "unsub":
 		return cl.send(&protocol.Command{Id: cl.id(), Unsubscribe: &protocol.UnsubscribeRequest{Channel: op.Ch}}, "unsubscribe", op.Ch)
 	case "pub":
@@ -647,6 +675,7 @@ func (w *w1World) setup() error {
 		ClientChannelPositionCheckDelay:  time.Duration(cfg.PositionCheckMs) * time.Millisecond,
 		ClientQueueMaxSize:               cfg.QueueMax,
 		HistoryMaxPublicationLimit:       cfg.HistoryMax,
+		HistoryMetaTTL:                   time.Duration(cfg.MetaTTLSec) * time.Second,
 		ChannelMaxLength:                 cfg.ChannelMaxLen,
 		ClientExpiredCloseDelay:          time.Duration(cfg.ExpiredDelayMs) * time.Millisecond,
 		RecoveryMaxPublicationLimit:      cfg.RecoveryMax,
@@ -1002,7 +1031,7 @@ func w1Run(s *simrt.Sim, script any, prop string) {
 	}
 	done := make(chan struct{}, 64)
 	n := 0
-	if prop == "C43" {
+	if prop == "C43" || prop == "C02" || prop == "C03" {
 		for _, ops := range sc.Pubs {
 			w.runPublisher(ops)
 		}
@@ -1027,7 +1056,7 @@ func w1Run(s *simrt.Sim, script any, prop string) {
 	}
 	for _, ops := range sc.Pubs {
 		ops := ops
-		if prop == "C43" {
+		if prop == "C43" || prop == "C02" || prop == "C03" {
 			w.runPublisher(ops) // history first; the requests are compared at quiescence
 			continue
 		}
@@ -1108,6 +1137,8 @@ var w1Flavours = map[string][]string{
 	"C36": {"_", "e_"},
 	"C26": {"_", "p_", "_", "e_"},
 	"C43": {"h_", "ph_", "eh_", "rh_"},
+	"C02": {"r_", "r_"},
+	"C03": {"c_", "c_"},
 	"C37": {"_", "p_"},
 }
 
@@ -1144,6 +1175,12 @@ func w1Gen(c *simrt.Choice, prop, tier string) any {
 		cfg.StaleMs = []int{1500, 3000}[c.Intn(2)]
 		cfg.ExpiredDelayMs = []int{500, 1000}[c.Intn(2)]
 		cfg.PresenceMs = 25000
+	}
+	if prop == "C02" || prop == "C03" {
+		cfg.HistorySize = []int{2, 4, 10}[c.Intn(3)]
+		cfg.HistoryTTLSec = []int{2, 60}[c.Intn(2)]
+		cfg.MetaTTLSec = []int{0, 5}[c.Intn(2)]
+		cfg.RecoveryMax = []int{0, 0, 2, 3}[c.Intn(4)]
 	}
 	if prop == "C43" {
 		cfg.HistoryMax = []int{0, 1, 2, 5}[c.Intn(4)]
@@ -1183,6 +1220,20 @@ func w1Gen(c *simrt.Choice, prop, tier string) any {
 			for j := 0; j < k && j < len(sc.Channels); j++ {
 				cl.ConnSubs = append(cl.ConnSubs, sc.Channels[j])
 			}
+		}
+		if prop == "C02" || prop == "C03" {
+			cl.Ops = []w1Op{{K: "connect"}}
+			n := 1 + c.Intn(5)
+			for j := 0; j < n; j++ {
+				ch := pickCh()
+				op := w1Op{K: "subrec", Ch: ch, Back: c.Intn(7) - 1, Ep: []string{"cur", "cur", "cur", "foreign", "empty"}[c.Intn(5)], Reject: c.Intn(5) == 0}
+				cl.Ops = append(cl.Ops, op, w1Op{K: "unsub", Ch: ch})
+				if c.Intn(3) == 0 {
+					cl.Ops = append(cl.Ops, w1Op{K: "sleep", DelayUs: []int{1000000, 3000000, 7000000}[c.Intn(3)]})
+				}
+			}
+			sc.Clients = append(sc.Clients, cl)
+			continue
 		}
 		if prop == "C36" {
 			switch c.Intn(5) {
@@ -1282,6 +1333,12 @@ func w1Gen(c *simrt.Choice, prop, tier string) any {
 		}
 		if prop == "C01" && c.Intn(6) == 0 {
 			ops = append(ops, w1Op{K: "rmhist", Ch: pickCh()})
+		}
+		if (prop == "C02" || prop == "C03") && c.Intn(3) == 0 {
+			ops = append(ops, []w1Op{{K: "rmhist", Ch: pickCh()}, {K: "sleep", DelayUs: 3000000}, {K: "sleep", DelayUs: 9000000}}[c.Intn(3)])
+			if c.Intn(2) == 0 {
+				ops = append(ops, w1Op{K: "pub", Ch: pickCh()})
+			}
 		}
 		sc.Pubs = append(sc.Pubs, ops)
 	}
@@ -1428,7 +1485,7 @@ func init() {
 			return r.Probes["nontrivial:"+prop] > 0
 		},
 	})
-	for _, p := range []string{"C04", "C05", "C10", "C01", "C06", "C07", "C08", "C09", "C11", "C26", "C43", "C36", "C37"} {
+	for _, p := range []string{"C04", "C05", "C10", "C01", "C06", "C07", "C08", "C09", "C11", "C26", "C43", "C36", "C37", "C02", "C03"} {
 		simrt.Claim(p, "w1", 10)
 	}
 }
